@@ -202,6 +202,7 @@ class Built(object):
         self.sectors = {}      # (zi, ci, role-name) -> sector object
         self.countries = {}    # (zi, ci) -> Country
         self.error = None
+        self.stage = None
         self.decl_order = []
 
 
@@ -241,6 +242,33 @@ def build(spec, order_seed=None, maxtime=0, run=True, desc=None, rename=None, in
         if mod.ExternalSector is None:
             ExternalSector(mod)
 
+    try:
+        _construct(spec, out, mod, zsel, nm, dsc, make_external, order_seed, hooks)
+    except Exception as ex:       # a constructor or wiring call refused the model
+        out.error = ex
+        out.stage = 'construction'
+        return out
+    if run:
+        K = spec['horizon']
+        mod.MaxTime = K
+        mod.EquationSolver.MaxTime = maxtime
+        try:
+            out.text = mod.main()
+        except Exception as ex:
+            out.error = ex
+            out.stage = 'main'
+            out.text = mod.FinalEquations
+    return out
+
+
+def _construct(spec, out, mod, zsel, nm, dsc, make_external, order_seed, hooks):
+    from sfc_models.models import Model, Country, Region
+    from sfc_models.sector import Market
+    from sfc_models.sector_definitions import (Household, HouseholdWithExpectations, Capitalists,
+                                               ConsolidatedGovernment, Treasury, CentralBank, FixedMarginBusiness,
+                                               FixedMarginBusinessMultiOutput, TaxFlow, MoneyMarket, DepositMarket,
+                                               GoldStandardGovernment)
+    K = spec['horizon']
     if spec['external'] == 'first':
         make_external()
     # ---- countries
@@ -445,15 +473,6 @@ def build(spec, order_seed=None, maxtime=0, run=True, desc=None, rename=None, in
                 mod.ExternalSector['XR'].SetExogenous(cur, '[' + ', '.join(vals) + ']')
     if hooks is not None:
         hooks(out)
-    if run:
-        mod.MaxTime = K
-        mod.EquationSolver.MaxTime = maxtime
-        try:
-            out.text = mod.main()
-        except Exception as ex:
-            out.error = ex
-            out.text = mod.FinalEquations
-    return out
 
 
 def zone_F_names(built, zi_list=None):
